@@ -1102,6 +1102,24 @@ def bounded(payload):
                     pr = gen_pair(random.Random("extra/%d" % k), [a], [b], True, pj, ids, False)
                     consider(pr)
                     parts["family_shared_p_and_guarded_raise_pairs"] += 1
+    # 1c. statement ids that are NOT in dependency order and overlap with the other method's: a renamed statement may get, as its
+    # new id, the old id of one of its own dependencies (no edge may be lost on the way)
+    def _a(i, lhs, rhs, deps):
+        return {"id": i, "k": "assign", "lhs": lhs, "sub": None, "rhs": rhs, "cond": None, "loops": [], "deps": deps}
+    for n_a in (5, 6, 7):
+        for pre in ("s", "main_"):
+            m1 = {"initial": "p0", "phases": {"p0": {"next": "p0", "stmts": [
+                _a("%s%d" % (pre, i), "tmp" if i == 0 else "<state>u", ["+", V("<state>u"), C(1)] if i else V("<state>u"),
+                   ["%s%d" % (pre, i - 1)] if i else []) for i in range(n_a)]}}}
+            fill = [_a("%s%d" % (pre, i), "f%d" % i, C(i), []) for i in range(2, 5)]
+            m2 = {"initial": "p0", "phases": {"p0": {"next": "p0", "stmts": [
+                _a(pre + "0", "<state>v", ["*", V("tb"), C(2)], [pre + "6"]),
+                _a(pre + "1", "<p>k2", ["+", V("tc"), V("<p>k2")], [pre + "5", pre + "0"])] + fill + [
+                _a(pre + "5", "tc", ["+", V("tb"), C(3)], [pre + "6"]), _a(pre + "6", "tb", ["+", V("<state>v"), C(1)], [])]}}}
+            for a_, b_ in ((m1, m2), (m2, m1)):
+                consider(dict({"m1": a_, "m2": b_}, pred=None, init={"<state>u": 1.5, "<state>v": -0.5, "<state>c": 2.0, "<p>k1": 0.25,
+                                                                      "<p>k2": 4.0, "<p>gain": 0.75}, t0=0.0, dt=0.5, steps=2))
+                parts["family_ids_out_of_dependency_order"] += 1
     # 2. seeded random tail
     for _ in range(nrand):
         if time.time() > deadline:
